@@ -897,7 +897,8 @@ class DocGen:
                         locs = [x for x in locs if x != src["in"]]
                         if locs:
                             other = r.choice(locs)
-                            op_level = [q for m2 in methods for q in item[m2].get("parameters", []) if isinstance(q, dict)]
+                            op_level = [comp_params.get(q["$ref"].rsplit("/", 1)[1], q) if "$ref" in q else q
+                                        for m2 in methods for q in item[m2].get("parameters", []) if isinstance(q, dict)]
                             if not any(str(p_.get("name", "")).lower() == src["name"].lower() and p_.get("in") == other for p_ in item_level + op_level):
                                 item_level.append(self.make_param(src["name"], other))
                 if r.random() < 0.4:
